@@ -22,7 +22,8 @@ the blocking point on*: every modelled step needs its locks at its first action 
   `AsyncDerivedReadyFuture::poll` / `AsyncDerivedFuture::poll` / `AsyncDerivedRefFuture::poll`:
   `aStart` = `loading.load` (+ `value.read_arc()` poll for the by-value/by-ref futures, which keeps
   an async read guard for the rest of the poll) up to yield `*:loaded`; `aPush` = `wakers.write().push`
-  up to `*:pushed`; `aRet` = `return Poll::Pending` (drops the guard).  A poll that loads
+  up to `*:pushed`; `aRet` = the second `loading.load()` with `waker.wake_by_ref()` when it reads
+  `false` (the repair of F-C19-1; absent in `initOld`) and `return Poll::Pending` (drops the guard).  A poll that loads
   `loading = false` returns `Ready` inside `aStart` (no hook on that path).
   `computed/async_derived/arc_async_derived.rs`: `pWrite` = the derived's task resuming after its
   future completed: `set_inner_value` (`*value.write().await = v`; Pending while a reader guard is
@@ -85,6 +86,9 @@ inductive PPc where
   deriving DecidableEq, Repr
 
 structure State where
+  /-- `true` = the code after `fix: … re-check loading after registering the waker` (F-C19-1);
+  `false` = the code before it (`initOld`), kept for the regression witness -/
+  recheck : Bool
   /-- by-value / by-ref future (takes the async read guard on `value` during the poll) -/
   guardKind : Bool
   loading : Bool := true
@@ -98,7 +102,11 @@ structure State where
   aw : Nat → Awaiter
 
 def init (guardKind : Bool) (polls : Nat) : State :=
-  { guardKind, aw := fun _ => { polls } }
+  { recheck := true, guardKind, aw := fun _ => { polls } }
+
+/-- the await path as it was before the repair of F-C19-1: no second look at `loading` -/
+def initOld (guardKind : Bool) (polls : Nat) : State :=
+  { recheck := false, guardKind, aw := fun _ => { polls } }
 
 /-- `Event::notify(1)` (event-listener, trusted): unless a listener is already notified, notify
 the first one in the queue, which fires its task waker -/
@@ -133,7 +141,9 @@ def stepAwaiter (s : State) (i : Nat) : State :=
     -- the poll returns: the guard / the queued `read_arc()` future is dropped; a dropped listener
     -- that had been notified passes the notification on
     let ls := s.listeners.filter (· != i)
+    -- repaired code: `if !loading.load() { waker.wake_by_ref() }` before `Poll::Pending`
     let aw := upd s.aw i { a with pc := .parked, guard := false, listening := false, notified := false,
+                                  woken := a.woken || (s.recheck && !s.loading)
                                   pendings := a.pendings + 1 }
     { s with
       readers := (if a.guard then s.readers - 1 else s.readers)
